@@ -10,5 +10,6 @@ git -C /repo worktree add -q -b wip-$n /tmp/rw/$n HEAD
 cd /repo
 git ls-files --others --ignored --exclude-standard | grep -E '\.so$|_version\.py$' | while read f; do
   mkdir -p /tmp/rw/$n/$(dirname $f); cp $f /tmp/rw/$n/$f; done
-# share nothing of the lean build: each worktree builds its own .lake (about 1 min)
+# start from a copy of the current lean build (lake traces are content-based)
+[ -d /verif/lean/.lake ] && cp -r /verif/lean/.lake /tmp/vw/$n/lean/.lake
 echo "/tmp/vw/$n /tmp/rw/$n"
